@@ -62,6 +62,7 @@ theorem fragT_simple {s : Stmt} (h : FragT s = true) (h1 : ∀ c t e, s ≠ .ifT
   | put m v lv => simpa [FragT] using h
   | delete t => simpa [FragT] using h
   | hilite t => simpa [FragT] using h
+  | mcall o m as => simpa [FragT] using h
   | ifThen c t e => exact absurd rfl (h1 c t e)
   | repeatWhile c b => exact absurd rfl (h2 c b)
   | repeatWith v a b d body => exact absurd rfl (h3 v a b d body)
@@ -143,7 +144,9 @@ theorem embSrc1_wf : (s : Stmt) → (x : Src) → EmbSrc1 s x → P.wfs (lower1 
   | .hilite .., x, h => by
     obtain ⟨sm, p, rfl, ho, _, hp⟩ := h
     exact ⟨by simp [lower1, P.wfs, P.wf, ho, plain_simpleCode hp], nsts_lower1_pos _⟩
-  | .mcall .., x, h => by obtain ⟨sm, p, rfl, ho, he, hp⟩ := h; exact absurd he (by simp [EmbS])
+  | .mcall .., x, h => by
+    obtain ⟨sm, p, rfl, ho, _, hp⟩ := h
+    exact ⟨by simp [lower1, P.wfs, P.wf, ho, plain_simpleCode hp], nsts_lower1_pos _⟩
   | .tell .., x, h => by obtain ⟨sm, p, rfl, ho, he, hp⟩ := h; exact absurd he (by simp [EmbS])
   | .repeatIn .., x, h => by obtain ⟨sm, p, rfl, ho, he, hp⟩ := h; exact absurd he (by simp [EmbS])
   | .exitRepeat, x, h => by obtain ⟨sm, p, rfl, ho, he, hp⟩ := h; exact absurd he (by simp [EmbS])
